@@ -42,10 +42,24 @@ def classify_under(root, mode):
                 text = B.doc_text(root)
                 B.Ctx.docs.append(text)
                 obj = cls.from_string(text)
+                # "the same from ... a string or bytes", under the same warning filter
+                try:
+                    ob = cls.from_string(text.encode('utf-8'))
+                    if type(ob) is not type(obj):
+                        return ('ok', 'bytes:%s-but-str:%s' % (type(ob).__name__, type(obj).__name__))
+                except Exception as eb:
+                    return ('ok', 'bytes:raised-%s-but-str:%s' % (type(eb).__name__, type(obj).__name__))
             else:
                 obj = cls._classify(root)
             return ('ok', type(obj).__name__)
         except Exception as e:
+            if B.Ctx.replay:
+                try:
+                    ob = cls.from_string(text.encode('utf-8'))
+                    return ('ok', 'bytes:%s-but-str:raised-%s' % (type(ob).__name__, type(e).__name__))
+                except Exception as eb:
+                    if type(eb) is not type(e):
+                        return ('ok', 'bytes:raised-%s-but-str:raised-%s' % (type(eb).__name__, type(e).__name__))
             return ('exc', e)
 
 
@@ -203,6 +217,9 @@ def ea_cell(P, A):
             kids.append(E('element_source', T('itemID', 'second')))
         if sshape == 'iids-then-ids':
             kids.append(E('element_source', T('storyID', 'second')))
+    if P.get('source_first') and len(kids) >= 3:
+        # sibling order is free: element_source before element_target (and both before the roID)
+        kids = kids[2:] + [kids[1], kids[0]]
     attrib = {} if op is None else {'operation': op}
     if P.get('extra_attr'):
         attrib['zz'] = 'REPLACE'
